@@ -149,6 +149,27 @@ fn c01(tier: &str) -> i32 {
         sq.extend(families::leaves());
         jobs.extend(jobs_from(sq).into_iter().map(|j| j.backend(lab::Bk::Sqlite)));
     }
+    // a fork as deep as the default retention, and the leave races on SQLite (rollback restores queued proposals there row by row)
+    for d in if tier == "quick" { vec![5usize] } else { vec![4, 5] } {
+        for bk in if tier == "quick" { vec![lab::Bk::Memory] } else { vec![lab::Bk::Memory, lab::Bk::Sqlite] } {
+            let mut j = E1Job::new(families::deep_fork(d)).backend(bk);
+            j.regimes = vec![explore::Regime::Causal];
+            j.members = Some(vec!["Z".into(), "A".into()]);
+            jobs.push(j);
+        }
+    }
+    if tier == "quick" {
+        for (sc, conv) in families::leaves() {
+            if sc.name == "leave-two-autocommits" || sc.name == "leave-autocommit-vs-rename-o1" {
+                let mut j = E1Job::new(sc).backend(lab::Bk::Sqlite);
+                if !conv {
+                    j = j.no_converge();
+                }
+                j.regimes = vec![explore::Regime::Causal];
+                jobs.push(j);
+            }
+        }
+    }
     rep.add_count("scenario_descriptions", jobs.len() as u64);
     run_e1(jobs, &|cx, rep, job| { props_e1::check_c01(cx, rep, job.expect_converge); }, &mut rep);
     rep.finish()
@@ -160,6 +181,19 @@ pub fn replay_other(_prop: &str, _first: &serde_json::Value) -> i32 {
 
 fn jobs_from(v: Vec<(scenario::Scenario, bool)>) -> Vec<E1Job> {
     v.into_iter().map(|(s, conv)| { let j = E1Job::new(s); if conv { j } else { j.no_converge() } }).collect()
+}
+
+/// a commit the group refuses (non-admin C renames the group at the root epoch, built directly with OpenMLS), published
+/// with a later timestamp than every scripted commit: every property of the graphs must hold with it in the pool
+fn hostile_commit_hook(w: &mut scenario::World) {
+    let Some(c) = w.nodes.get(&vec![]).and_then(|n| n.clients.get("C")).map(|c| c.fork()) else { return };
+    let pks = w.pks_by_name.clone();
+    let pk_of = move |n: &str| pks.get(n).and_then(|h| nostr::PublicKey::from_hex(h).ok());
+    if let Ok(ev) = adversary::raw_commit(&c, &w.gid, &adversary::CommitContent::Rename("hostile".into()), &pk_of, None, w.base_ts + 900) {
+        w.pool.push(scenario::PoolEvent { label: "n.C.hostile-rename".into(), event: ev, kind: scenario::EvKind::Commit, act: scenario::ActKind::Rename("hostile".into()), author: "C".into(), node: vec![], child: None, ts: 900, rumor: None });
+        let idx = w.pool.len() - 1;
+        w.settle_order.push(idx);
+    }
 }
 
 fn c07(tier: &str) -> i32 {
@@ -178,6 +212,23 @@ fn c07(tier: &str) -> i32 {
         let mut sq = families::c01_quick();
         sq.extend(families::c02_quick());
         jobs.extend(jobs_from(sq).into_iter().map(|j| j.backend(lab::Bk::Sqlite)));
+    }
+    // restarts between the deliveries (SQLite): an event handled before the restart is still "already handled" after it
+    for (sc, _) in families::c01_quick().into_iter().take(if tier == "quick" { 1 } else { 4 }) {
+        let mut j = E1Job::new(sc).backend(lab::Bk::Sqlite);
+        j.regimes = vec![explore::Regime::Causal];
+        j.with_restart = true;
+        j.with_local_ops = false;
+        j.members = Some(vec!["Z".into()]);
+        jobs.push(j);
+    }
+    // a refused commit in the pool: what it left behind must not change how the applied commit is treated later
+    for (sc, _) in families::c01_quick().into_iter().take(if tier == "quick" { 2 } else { 6 }) {
+        let mut j = E1Job::new(sc);
+        j.regimes = vec![explore::Regime::Causal];
+        j.world_hook = Some(hostile_commit_hook);
+        j.members = Some(vec!["Z".into(), "B".into()]);
+        jobs.push(j);
     }
     run_e1(jobs, &|cx, rep, _| props_e1::check_c07(cx, rep), &mut rep);
     rep.finish()
@@ -298,6 +349,18 @@ fn c02(tier: &str) -> i32 {
     if tier != "quick" {
         jobs.extend(jobs_from(families::c02_quick()).into_iter().map(|j| j.backend(lab::Bk::Sqlite)));
     }
+    // forward window much larger than the tolerance (and the other way round in the thorough tier): per-delivery oracle only
+    let mut fj = vec![families::fwd_jump(5, 1, 100)];
+    if tier != "quick" {
+        fj.push(families::fwd_jump(6, 2, 50));
+        fj.push(families::fwd_jump(4, 0, 10));
+    }
+    for j in jobs_from(fj) {
+        let mut j = j;
+        j.regimes = vec![explore::Regime::Causal];
+        j.with_local_ops = false;
+        jobs.push(j);
+    }
     run_e1(jobs, &|cx, rep, _| props_e1::check_c02(cx, rep), &mut rep);
     rep.finish()
 }
@@ -402,6 +465,8 @@ fn c04check(tier: &str) -> i32 {
     if tier != "quick" {
         c04::run(&mut rep, lab::Bk::Sqlite, true);
     }
+    c04::cross_group_rollback(&mut rep, lab::Bk::Memory);
+    c04::cross_group_rollback(&mut rep, lab::Bk::Sqlite);
     rep.finish()
 }
 
